@@ -775,7 +775,18 @@ def explore(fn, prefix=(), stop_on_violation=True, max_paths=None, frontier_limi
                 st.inconclusive = 'time budget exhausted with %d prefixes pending' % len(stack)
                 break
             p, m = stack.pop(0) if bfs else stack.pop()
-            r, pend = run_path(fn, p, m)
+            try:
+                r, pend = run_path(fn, p, m)
+            except Inconclusive as e:
+                # this path (and its unexplored siblings below it) stays undecided: the run can no
+                # longer be exhaustive, but other paths are still explored so that a counterexample
+                # elsewhere is not hidden by one hard query
+                if not st.inconclusive:
+                    st.inconclusive = str(e)
+                st.undecided = getattr(st, 'undecided', 0) + 1
+                if st.undecided > 50:
+                    break
+                continue
             st.add(r)
             stack.extend(pend)
             if r.status == 'violation' and stop_on_violation:
@@ -834,9 +845,11 @@ def parallel_explore(fn, workers=None, chunk_paths=400, stop_on_violation=True, 
             for st, left in pool.imap_unordered(_worker, items):
                 total.merge(st)
                 nxt.extend(left)
-                if total.inconclusive or (total.violations and stop_on_violation):
+                if total.violations and stop_on_violation:
                     break
-            if total.inconclusive or (total.violations and stop_on_violation):
+            if total.violations and stop_on_violation:
+                break
+            if total.inconclusive and 'worker crashed' in str(total.inconclusive):
                 break
             if max_wall_s and time.time() - t0 > max_wall_s:
                 total.inconclusive = 'wall budget %ss exhausted with %d prefixes pending' % (
